@@ -80,10 +80,14 @@ Fixpoint marshal_all (e : stdenv) (l : list resource) (prepath : str)
 Definition rid (r : resource) : str :=
   match res_get r "id" with Ok (VStr s) => s | _ => "" end.
 
-(** sort.Slice(doc.Included, by id) -- ids are distinct in the property's
-    domain, where the sorted order is unique *)
+(** sort.Slice(doc.Included, by id).  With distinct ids (C11's domain) the
+    sorted order is unique.  Resources of different types may share an id:
+    for the at most 12 included resources the checks generate, sort.Slice is
+    an insertion sort, which keeps equal ids in their original order -- so
+    does this one (an element is inserted before the first one that is not
+    smaller). *)
 Definition sort_included (l : list resource) : list resource :=
-  isort (fun a b => String.ltb (rid a) (rid b)) l.
+  isort (fun a b => String.leb (rid a) (rid b)) l.
 
 Definition ident_json (i : identifier) : json :=
   JObj [("id", jstr (i_id i)); ("type", jstr (i_type i))].
